@@ -286,7 +286,7 @@ def shard(sh):
     from vlib import e3_simkernel as e3
     tier = sh.get("tier", "quick")
     run = Run(PROP, tier, sh["seed"], "exploration", RULE)
-    rng = rng_for(sh["seed"], "c03", sh["kind"], sh["sub"])
+    rng = rng_for(sh["seed"], "c03", sh["kind"], sh.get("sub", 0))
     if sh["kind"] == "sample":
         for i in range(sh["n"]):
             if run.enough():
@@ -301,6 +301,9 @@ def shard(sh):
                     run.violation(mech, summary, {"scenario": sc, "schedule": {"kind": "random", "parts": parts, "p": p}})
             if i < 1:
                 run.sample({"scenario": sc, "deliveries_last_schedule": k.deliveries[:8], "exit": k.exit_code})
+    elif sh["kind"] == "live":
+        from checks import c03_live
+        c03_live.shard(run, sh)
     elif sh["kind"] == "enum":
         # short histories: first death at injection point k, for every k reached
         for i in range(sh["n"]):
@@ -339,7 +342,11 @@ def main(tier, seed):
         "at most 4 master signals are delivered per loop tick, so the arbiter's 5-slot signal queue never overflows",
         "live validation of the simulation against a real master: see the live sub-tier (traces_validated_against_impl)",
     ]
+    from checks import c03_live
+    live = c03_live.plan(run, tier, seed)
     common.run_sharded(run, shards, timeout=900 if q else 7200)
+    common.run_sharded(run, live, timeout=900 if q else 3600, nproc=8)
+    run.extra_cov["traces_validated_against_impl"] = run.reach.get("traces_validated_against_impl", 0)
     return run.finish()
 
 
@@ -349,6 +356,12 @@ def replay(path):
         rec = json.load(f)
     c = rec["case"]
     run = Run(PROP, "quick", 0, "exploration", RULE)
+    if "live" in c:
+        from checks import c03_live
+        v = c03_live.replay_case(run, c)
+        for mech, s2 in v:
+            print("VIOLATION property=%s replay=%s\n  %s %s" % (PROP, path, mech, s2))
+        return 1 if v else 0
     s = c["schedule"]
     if s["kind"] == "index":
         sched = e3.IndexSchedule(s["k"])
